@@ -176,9 +176,30 @@ PROP_TYPES = ['gchar', 'guchar', 'gboolean', 'gint', 'guint', 'glong', 'gulong',
               'GArray', 'GPtrArray', 'GObject', 'GInitiallyUnowned', 'GParam', 'GVariant', 'GValue',
               'GClosure', 'GError', 'GBytes', 'GParamFlags', 'GCancellable', 'GAsyncResult',
               'FooObj', 'FooEn', 'FooFl', 'FooBx', 'FooIfc', 'FooHidden', 'FooBare']
-DEFAULTS = [None, ['v', '0'], ['v', '-1'], ['v', 'TRUE'], ['v', '0.000000'], ['v', 'FOO_EN_A'],
-            ['v', 'FOO_FL_A | FOO_FL_B'], ['s', None], ['s', ''], ['s', 'a b'], ['s', '<&>"\''],
-            ['s', 'tab\there\nnl\\'], ['s', 'café'], ['s', 'NULL'], ['s', '0']]
+STR_DEFAULTS = [['s', None], ['s', ''], ['s', 'a b'], ['s', '<&>"\''], ['s', 'tab\there\nnl\\'],
+                ['s', 'caf\u00e9'], ['s', 'NULL'], ['s', '0']]
+
+
+def defaults_for(gtype):
+    """The default-value texts gdump.c can print for a property of this type (value_to_string)."""
+    if gtype == 'gchararray':
+        return STR_DEFAULTS
+    if gtype in ('gchar', 'gint', 'glong', 'gint64'):
+        return [['v', '0'], ['v', '-1'], ['v', '2147483647']]
+    if gtype in ('guchar', 'guint', 'gulong', 'guint64'):
+        return [['v', '0'], ['v', '4294967295']]
+    if gtype == 'gboolean':
+        return [['v', 'TRUE'], ['v', 'FALSE']]
+    if gtype in ('gfloat', 'gdouble'):
+        return [['v', '0.000000'], ['v', '-1.500000']]
+    if gtype == 'FooEn':
+        return [['v', 'FOO_EN_A'], ['v', 'FOO_EN_B']]
+    if gtype in ('FooFl', 'GParamFlags'):
+        return [['v', 'FOO_FL_A | FOO_FL_B'], ['v', 'FOO_FL_A'], ['v', '']]
+    return [None]          # pointer / boxed / object / variant / param defaults are NULL: no attribute
+
+
+PROP_NAMES = ['x', 'some-prop', 'a1-b2-c3', 'name', 'type', 'flags']
 HI = [0, 1 << 30, 1 << 31, 3 << 30]
 
 
@@ -190,13 +211,18 @@ def p_params(tier):
                 for hi in HI:
                     for fl in range(256):
                         yield ('w', owner, acc, ti, fl | hi, 0)
-    # every type spelling x every default x representative flag words
+    # every type spelling x every default text gdump.c can print for it x representative flag words
     words = [0, 1, 2, 3, 4, 8, 7, 11, 15, 12, 16, 224, 255, 227] if tier == 'thorough' else [0, 3, 7, 11, 255]
     for owner in (0, 1):
         for ti in range(len(PROP_TYPES)):
-            for di in range(len(DEFAULTS)):
+            for di in range(len(defaults_for(PROP_TYPES[ti]))):
                 for fl in words:
                     yield ('t', owner, 0, ti, fl, di)
+    # property names
+    for owner in (0, 1):
+        for ni in range(len(PROP_NAMES)):
+            for fl in (0, 1, 2, 3, 15):
+                yield ('n', owner, 0 if PROP_NAMES[ni] == 'type' else 1, ni, fl, 0)
     # three properties at once (no cross-talk): all ordered pairs of low nibbles + a fixed third
     for a in range(16):
         for b in range(16):
@@ -228,8 +254,12 @@ def p_build(p):
         props = [dict(name='first', type='gint', flags=a, default=['v', '0']),
                  dict(name='second-one', type='gchararray', flags=b, default=['s', None]),
                  dict(name='third', type='gboolean', flags=3, default=['v', 'FALSE'])]
+    elif mode == 'n':
+        props = [dict(name=PROP_NAMES[a], type='gint', flags=b, default=['v', '0']),
+                 dict(name='zz', type='gint', flags=3, default=['v', '0'])]
     else:
-        props = [dict(name='some-prop', type=PROP_TYPES[a], flags=b, default=DEFAULTS[di])]
+        props = [dict(name='some-prop', type=PROP_TYPES[a], flags=b,
+                      default=(defaults_for(PROP_TYPES[a])[di] if mode == 't' else ['v', '0']))]
     if owner == 0:
         lib.klass('FooObj', 'GObject', class_members=[], props=props)
         lib.iface('FooIfc')
@@ -241,8 +271,9 @@ def p_build(p):
         inst = 'FooIfc*'
         pre = 'foo_ifc_'
     if acc:
-        lib.func(pre + 'get_some_prop', 'int', [(inst, 'self')])
-        lib.func(pre + 'set_some_prop', 'void', [(inst, 'self'), ('int', 'v')])
+        nm = props[0]['name'].replace('-', '_')
+        lib.func(pre + 'get_' + nm, 'int', [(inst, 'self')])
+        lib.func(pre + 'set_' + nm, 'void', [(inst, 'self'), ('int', 'v')])
     return lib.scn
 
 
@@ -339,23 +370,26 @@ def v_params(tier):
             if len(set(s)) != len(s):
                 continue
             for suffix in ((0, 1) if owner == 1 else (0,)):
-                yield (owner, tuple(s), suffix)
+                for inst in ((0, 1, 2) if len(s) <= 1 else (0,)):
+                    yield (owner, tuple(s), suffix, inst)
 
 
 def v_build(p):
-    owner, s, suffix = p
+    owner, s, suffix, inst = p
+    how = ['struct', 'opaque', 'none'][inst]
     lib = Lib(GIO)
     target = {0: 'FooObj', 1: 'FooIfc', 2: 'FooSub'}[owner]
     lib.decls.append(['callback', 'FooVfTypedefd', 'void', [[target + '*', 'self'], ['int', 'x']]])
     members = [v_menu(target)[i] for i in s]
     lib.klass('FooOther', 'GObject', class_members=[])
     if owner == 0:
-        lib.klass('FooObj', 'GObject', class_members=members)
+        lib.klass('FooObj', 'GObject', class_members=members, instance=how)
     elif owner == 1:
-        lib.iface('FooIfc', suffix=['Iface', 'Interface'][suffix], members=members)
+        lib.iface('FooIfc', suffix=['Iface', 'Interface'][suffix], members=members, instance=how)
     else:
         lib.klass('FooObj', 'GObject', class_members=[['cb', 'base_vf', 'void', [['FooObj*', 'self']]]])
-        lib.klass('FooSub', 'FooObj', class_members=members + [['cb', 'takes_base', 'void', [['FooObj*', 'b']]]])
+        lib.klass('FooSub', 'FooObj', instance=how,
+                  class_members=members + [['cb', 'takes_base', 'void', [['FooObj*', 'b']]]])
     return lib.scn
 
 
